@@ -54,7 +54,14 @@ def stepLine (d : DState) (ws : List String) : DState × String :=
       let (s', o) := login s ip (method == "POST") (payload == "ok") (parseCred u) (parseCred p)
       let cls := match o with
         | .method => "method" | .disabled => "disabled" | .limited => "limited"
-        | .badPayload => "badpayload" | .denied => "denied" | .ok tok => s!"ok tok={tok}"
+        | .badPayload => "badpayload" | .denied => "denied"
+        | .ok tok =>
+          -- the STORED expiry of the fresh session relative to the login instant (harness: `exp=`)
+          let e := if !d.auth then "" else
+            match lookup s'.sessions tok with
+            | some x => if x == s.now + s.cfg.ttl then " exp=ok" else if s.now + s.cfg.ttl < x then " exp=late" else " exp=early"
+            | none => " exp=missing"
+          s!"ok tok={tok}" ++ e
       ({ d with s := s' }, "login " ++ cls ++ dumpL d s' ip)
     | none => (d, "bad-op")
   | ["logout", method, c] =>
@@ -63,6 +70,15 @@ def stepLine (d : DState) (ws : List String) : DState × String :=
   | ["preq", c] =>
     let (s', g) := guard s (parseCookie s c)
     ({ d with s := s' }, "preq " ++ guardStr g ++ dumpS d s')
+  | ["phase", n] => match n.toNat? with
+    | some n => if d.auth && n < 1000 then (d, "phase") else (d, "bad-op")   -- real-time phase only: no model time passes
+    | none => (d, "bad-op")
+  | ["await", c] =>
+    -- the harness lets the last session's ttl really elapse: `tick (ttl+1)` then the request
+    if !d.auth then (d, "bad-op") else
+    let ck := parseCookie s c
+    let (s', g) := guard (step s (.tick (s.cfg.ttl + 1))) ck
+    ({ d with s := s' }, "await " ++ guardStr g ++ dumpS d s')
   | ["sess", c] =>
     let (s', a) := sessionInfo s (parseCookie s c)
     ({ d with s := s' }, s!"sess {a}" ++ dumpS d s')
